@@ -18,6 +18,7 @@ EvolveMethod in real and imaginary time, the same for MpDm where defined, and fo
 Exceptions of the library are violations only where the property promises an object (constructors
 in a non-empty sector: D15); elsewhere they are counted as `rejected:*`.
 """
+import contextlib
 import time
 
 import numpy as np
@@ -102,6 +103,57 @@ def short(p):
         else:
             tags.append(x)
     return "+".join(sorted(set(tags)))
+
+
+@contextlib.contextmanager
+def watch_local_updates(found):
+    """recording wrappers (harness process only) around the two local-update routines used by the
+    sweeping algorithms: after every local update the stored labels must describe the tensors.
+    The first problem is appended to `found`."""
+    from renormalizer.mps.mp import MatrixProduct
+    from renormalizer.tn.tree import TTNS
+    o1 = MatrixProduct._update_mps
+    o2 = TTNS.update_2site
+
+    def w1(self, *a, **kw):
+        r = o1(self, *a, **kw)
+        if not found:
+            try:
+                p = L.chain_label_problems(self)
+            except Exception as e:
+                p = [(-1, "label-check-error:" + type(e).__name__)]
+            if p:
+                found.append("labels:" + ",".join(f"{x}:{w}" for x, w in p[:3]))
+        return r
+
+    def w2(self, *a, **kw):
+        r = o2(self, *a, **kw)
+        if not found:
+            try:
+                p = L.tree_label_problems(self)
+            except Exception as e:
+                p = [(-1, "label-check-error:" + type(e).__name__)]
+            if p:
+                found.append("labels:" + ",".join(f"{x}:{w}" for x, w in p[:3]))
+        return r
+
+    MatrixProduct._update_mps = w1
+    TTNS.update_2site = w2
+    try:
+        yield
+    finally:
+        MatrixProduct._update_mps = o1
+        TTNS.update_2site = o2
+
+
+def guarded(run, part, fn, *a):
+    """run one generated case; a library exception outside the operation under test (set-up
+    calls) is counted, never propagated"""
+    try:
+        return fn(*a)
+    except Exception as e:
+        run.count(f"rejected:{part}:setup:{type(e).__name__}")
+        return None
 
 
 # ------------------------------------------------------------------------------------------
@@ -201,82 +253,85 @@ def part_constructors(run, rng, ncases, quick, t_end):
     n_eval = 0
     distinct = set()
     for _ in range(ncases):
-        if time.time() > t_end:
-            run.count("ctor:time-guard")
-            break
-        g = gen_model(rng, quick)
-        if g is None:
-            continue
-        spec, basis, k, model = g
-        what = ["random", "hartree", "ground"][int(rng.choice(3, p=[0.6, 0.3, 0.1]))]
-        replay = dict(spec=L.jsonable(spec))
-        if what == "random":
-            sector = pick_sector(rng, basis, k)
-            if rng.random() < 0.25:
-                m_max = [1] + [int(x) for x in rng.integers(1, 6, size=len(basis) - 1)] + [1]
+        try:
+            if time.time() > t_end:
+                run.count("ctor:time-guard")
+                break
+            g = gen_model(rng, quick)
+            if g is None:
+                continue
+            spec, basis, k, model = g
+            what = ["random", "hartree", "ground"][int(rng.choice(3, p=[0.6, 0.3, 0.1]))]
+            replay = dict(spec=L.jsonable(spec))
+            if what == "random":
+                sector = pick_sector(rng, basis, k)
+                if rng.random() < 0.25:
+                    m_max = [1] + [int(x) for x in rng.integers(1, 6, size=len(basis) - 1)] + [1]
+                else:
+                    m_max = int(rng.integers(1, 9))
+                percent = float(rng.choice([0, 0.3, 1.0]))
+                mps = try_random(run, rng, model, spec, sector, m_max, percent)
+                n_eval += 1
+                run.count("ctor:random:" + ("2comp" if k == 2 else "1comp"))
+                if mps is None:
+                    run.count("ctor:random:failed")
+                    continue
+                probs = check_chain(mps, sector)
+                replay.update(op="Mps.random", sector=sector, m_max=L.jsonable(m_max), percent=percent)
+                if probs:
+                    run.violation("Mps.random:" + short(probs), dict(replay, problems=probs))
+                q = L.config_qn(basis, k)
+                if tuple(sector) == tuple(q.max(axis=0)):
+                    run.count("ctor:random:all-occupied-sector")
+                distinct.add(("random", len(spec), k, tuple(sector), str(m_max)))
+            elif what == "hartree":
+                cond = random_condition(rng, basis, k)
+                qn_idx = None if rng.random() < 0.4 else int(rng.integers(0, len(basis)))
+                try:
+                    mps = Mps.hartree_product_state(model, dict(cond), qn_idx=qn_idx)
+                except Exception as e:
+                    run.violation("hartree_product_state:raises:" + type(e).__name__,
+                                  dict(replay, cond={str(a): b for a, b in cond.items()}, qn_idx=qn_idx, error=str(e)))
+                    continue
+                n_eval += 1
+                run.count("ctor:hartree")
+                sector = cond_sector(cond, basis, k)
+                probs = check_chain(mps, sector)
+                if qn_idx is not None and mps.qnidx != qn_idx:
+                    probs.append("qnidx-ignored")
+                if probs:
+                    run.violation("hartree_product_state:" + short(probs),
+                                  dict(replay, cond={str(a): b for a, b in cond.items()}, qn_idx=qn_idx, problems=probs))
+                distinct.add(("hartree", len(spec), k, tuple(sector), qn_idx))
             else:
-                m_max = int(rng.integers(1, 9))
-            percent = float(rng.choice([0, 0.3, 1.0]))
-            mps = try_random(run, rng, model, spec, sector, m_max, percent)
-            n_eval += 1
-            run.count("ctor:random:" + ("2comp" if k == 2 else "1comp"))
-            if mps is None:
-                run.count("ctor:random:failed")
-                continue
-            probs = check_chain(mps, sector)
-            replay.update(op="Mps.random", sector=sector, m_max=L.jsonable(m_max), percent=percent)
-            if probs:
-                run.violation("Mps.random:" + short(probs), dict(replay, problems=probs))
-            q = L.config_qn(basis, k)
-            if tuple(sector) == tuple(q.max(axis=0)):
-                run.count("ctor:random:all-occupied-sector")
-            distinct.add(("random", len(spec), k, tuple(sector), str(m_max)))
-        elif what == "hartree":
-            cond = random_condition(rng, basis, k)
-            qn_idx = None if rng.random() < 0.4 else int(rng.integers(0, len(basis)))
-            try:
-                mps = Mps.hartree_product_state(model, dict(cond), qn_idx=qn_idx)
-            except Exception as e:
-                run.violation("hartree_product_state:raises:" + type(e).__name__,
-                              dict(replay, cond={str(a): b for a, b in cond.items()}, qn_idx=qn_idx, error=str(e)))
-                continue
-            n_eval += 1
-            run.count("ctor:hartree")
-            sector = cond_sector(cond, basis, k)
-            probs = check_chain(mps, sector)
-            if qn_idx is not None and mps.qnidx != qn_idx:
-                probs.append("qnidx-ignored")
-            if probs:
-                run.violation("hartree_product_state:" + short(probs),
-                              dict(replay, cond={str(a): b for a, b in cond.items()}, qn_idx=qn_idx, problems=probs))
-            distinct.add(("hartree", len(spec), k, tuple(sector), qn_idx))
-        else:
-            if any(s[0] == "me" for s in spec):
-                run.count("ctor:ground:skip-me")
-                continue
-            me = bool(rng.integers(2))
-            try:
-                mps = Mps.ground_state(model, max_entangled=me, normalize=bool(rng.integers(2)))
-            except Exception as e:
-                run.count(f"rejected:ground_state:{type(e).__name__}")
-                continue
-            n_eval += 1
-            run.count("ctor:ground")
-            # every non-phonon site in its state 0; phonons carry no charge
-            sector = [int(x) for x in sum(L.sigmaqn_of(b, k)[0] for b in basis if not b.is_phonon) + np.zeros(k, dtype=int)] \
-                if any(not b.is_phonon for b in basis) else [0] * k
-            zero_sector = [0] * k
-            # ground_state declares qntot = 0; that is only the truth when state 0 of every
-            # electronic site has charge 0 (for BasisHalfSpin with max_entangled both states are
-            # populated: only charge-free spins are consistent).  Judge only the consistent case.
-            consistent = all((not b.is_spin or np.all(L.sigmaqn_of(b, k) == 0)) for b in basis) and sector == zero_sector
-            if not consistent:
-                run.count("ctor:ground:model-outside-documented-use")
-                continue
-            probs = check_chain(mps, zero_sector)
-            if probs:
-                run.violation("ground_state:" + short(probs), dict(replay, max_entangled=me, problems=probs))
-            distinct.add(("ground", len(spec), me))
+                if any(s[0] == "me" for s in spec):
+                    run.count("ctor:ground:skip-me")
+                    continue
+                me = bool(rng.integers(2))
+                try:
+                    mps = Mps.ground_state(model, max_entangled=me, normalize=bool(rng.integers(2)))
+                except Exception as e:
+                    run.count(f"rejected:ground_state:{type(e).__name__}")
+                    continue
+                n_eval += 1
+                run.count("ctor:ground")
+                # every non-phonon site in its state 0; phonons carry no charge
+                sector = [int(x) for x in sum(L.sigmaqn_of(b, k)[0] for b in basis if not b.is_phonon) + np.zeros(k, dtype=int)] \
+                    if any(not b.is_phonon for b in basis) else [0] * k
+                zero_sector = [0] * k
+                # ground_state declares qntot = 0; that is only the truth when state 0 of every
+                # electronic site has charge 0 (for BasisHalfSpin with max_entangled both states are
+                # populated: only charge-free spins are consistent).  Judge only the consistent case.
+                consistent = all((not b.is_spin or np.all(L.sigmaqn_of(b, k) == 0)) for b in basis) and sector == zero_sector
+                if not consistent:
+                    run.count("ctor:ground:model-outside-documented-use")
+                    continue
+                probs = check_chain(mps, zero_sector)
+                if probs:
+                    run.violation("ground_state:" + short(probs), dict(replay, max_entangled=me, problems=probs))
+                distinct.add(("ground", len(spec), me))
+        except Exception as e:  # set-up call of the library failed: counted, never propagated
+            run.count("rejected:part_constructors:setup:" + type(e).__name__)
     return n_eval, len(distinct)
 
 
@@ -288,110 +343,113 @@ def part_operators(run, rng, ncases, quick, t_end):
     n_eval = 0
     distinct = set()
     for _ in range(ncases):
-        if time.time() > t_end:
-            run.count("op:time-guard")
-            break
-        g = gen_model(rng, quick, nmax=6)
-        if g is None:
-            continue
-        spec, basis, k, model = g
-        charged = rng.random() < 0.65
-        if charged:
-            ct = L.charged_terms(rng, spec, k, int(rng.integers(1, 4)))
-            if ct is None:
+        try:
+            if time.time() > t_end:
+                run.count("op:time-guard")
+                break
+            g = gen_model(rng, quick, nmax=6)
+            if g is None:
                 continue
-            terms, tdesc, q = ct
-            if rng.random() < 0.4:      # multiply by a neutral factor elsewhere: charge unchanged
-                more, mdesc = L.conserving_terms(rng, spec, k, 1)
-                if more:
-                    try:
-                        prod = terms[0] * more[0]
-                        terms = [prod] + terms[1:]
-                        tdesc = tdesc + [["*first-term-times*"] + mdesc[0]]
-                    except Exception:
-                        pass
-        else:
-            terms, tdesc = L.conserving_terms(rng, spec, k, int(rng.integers(1, 5)), complex_factors=rng.random() < 0.3)
-            q = [0] * k
-            if not terms:
-                continue
-        replay = dict(spec=L.jsonable(spec), terms=tdesc, q=q)
-        algo = ["qr", "Hopcroft-Karp", "Hungarian"][int(rng.integers(3))]
-        try:
-            mpo = Mpo(model, terms, algo=algo)
-        except Exception as e:
-            run.count(f"rejected:Mpo:{type(e).__name__}")
-            continue
-        n_eval += 1
-        run.count("op:mpo:" + ("charged" if any(q) else "neutral"))
-        probs = check_chain(mpo, q)
-        if probs:
-            run.violation("Mpo.construct:" + short(probs), dict(replay, algo=algo, problems=probs))
-            continue
-        # adjoint
-        try:
-            adj = mpo.conj_trans()
-            probs = check_chain(adj, [-x for x in q])
-            if probs:
-                sig = SIG_D2 if any(q) and any(p.startswith("qntot") or p.startswith("labels") for p in probs) else "conj_trans:" + short(probs)
-                run.violation(sig, dict(replay, op="Mpo.conj_trans", problems=probs,
-                                        stored_qntot=L.jsonable(np.asarray(adj.qntot)), expected_qntot=[-x for x in q]))
-            run.count("op:conj_trans:" + ("charged" if any(q) else "neutral"))
-        except Exception as e:
-            run.count(f"rejected:conj_trans:{type(e).__name__}")
-        # apply to a state
-        sector = pick_sector(rng, basis, k)
-        mps, m_max = random_state(run, rng, model, spec, basis, k, sector)
-        if mps is None:
-            run.count("op:no-state")
-            continue
-        mode = int(rng.integers(4))
-        if mode == 1:
-            mps.canonicalise()     # centre at 0: operator and state centres differ
-        elif mode == 2:
-            mps.move_qnidx(int(rng.integers(0, mps.site_num)))
-        target = [int(a + b) for a, b in zip(sector, q)]
-        try:
-            new = mpo.apply(mps) if rng.random() < 0.7 else mpo @ mps
-        except Exception as e:
-            run.count(f"rejected:apply:{type(e).__name__}")
-            continue
-        probs = check_chain(new, target)
-        replay2 = dict(replay, sector=sector, m_max=m_max, state_centre=int(mps.qnidx), target=target)
-        if probs:
-            run.violation("Mpo.apply:" + ("charged:" if any(q) else "neutral:") + short(probs), dict(replay2, problems=probs))
-            continue
-        if new.qnidx != mps.qnidx:
-            run.violation("Mpo.apply:centre-moved", dict(replay2, got=int(new.qnidx)))
-        distinct.add(("apply", len(spec), k, tuple(q), tuple(sector), mode))
-        v, _ = L.chain_dense(new)
-        if np.linalg.norm(v) < 1e-12:
-            run.count("op:apply:annihilated")
-            continue
-        # canonicalise / compress of the shifted state keep it in the shifted sector
-        try:
-            w = new.copy()
-            w.ensure_left_canonical() if rng.random() < 0.5 else w.ensure_right_canonical()
-            probs = check_chain(w, target)
-            if probs:
-                run.violation("Mpo.apply+canonicalise:" + short(probs), dict(replay2, problems=probs))
-                continue
-            w.compress(temp_m_trunc=int(rng.integers(1, 4)))
-            probs = check_chain(w, target)
-            if probs:
-                run.violation("Mpo.apply+compress:" + short(probs), dict(replay2, problems=probs))
-        except Exception as e:
-            run.count(f"rejected:apply-then-canonicalise:{type(e).__name__}")
-        # operator product: charges add
-        if rng.random() < 0.3:
+            spec, basis, k, model = g
+            charged = rng.random() < 0.65
+            if charged:
+                ct = L.charged_terms(rng, spec, k, int(rng.integers(1, 4)))
+                if ct is None:
+                    continue
+                terms, tdesc, q = ct
+                if rng.random() < 0.4:      # multiply by a neutral factor elsewhere: charge unchanged
+                    more, mdesc = L.conserving_terms(rng, spec, k, 1)
+                    if more:
+                        try:
+                            prod = terms[0] * more[0]
+                            terms = [prod] + terms[1:]
+                            tdesc = tdesc + [["*first-term-times*"] + mdesc[0]]
+                        except Exception:
+                            pass
+            else:
+                terms, tdesc = L.conserving_terms(rng, spec, k, int(rng.integers(1, 5)), complex_factors=rng.random() < 0.3)
+                q = [0] * k
+                if not terms:
+                    continue
+            replay = dict(spec=L.jsonable(spec), terms=tdesc, q=q)
+            algo = ["qr", "Hopcroft-Karp", "Hungarian"][int(rng.integers(3))]
             try:
-                prod = mpo.apply(mpo)
-                probs = check_chain(prod, [2 * x for x in q])
-                if probs:
-                    run.violation("Mpo.apply(Mpo):" + short(probs), dict(replay, problems=probs))
-                run.count("op:mpo@mpo")
+                mpo = Mpo(model, terms, algo=algo)
             except Exception as e:
-                run.count(f"rejected:mpo@mpo:{type(e).__name__}")
+                run.count(f"rejected:Mpo:{type(e).__name__}")
+                continue
+            n_eval += 1
+            run.count("op:mpo:" + ("charged" if any(q) else "neutral"))
+            probs = check_chain(mpo, q)
+            if probs:
+                run.violation("Mpo.construct:" + short(probs), dict(replay, algo=algo, problems=probs))
+                continue
+            # adjoint
+            try:
+                adj = mpo.conj_trans()
+                probs = check_chain(adj, [-x for x in q])
+                if probs:
+                    sig = SIG_D2 if any(q) and any(p.startswith("qntot") or p.startswith("labels") for p in probs) else "conj_trans:" + short(probs)
+                    run.violation(sig, dict(replay, op="Mpo.conj_trans", problems=probs,
+                                            stored_qntot=L.jsonable(np.asarray(adj.qntot)), expected_qntot=[-x for x in q]))
+                run.count("op:conj_trans:" + ("charged" if any(q) else "neutral"))
+            except Exception as e:
+                run.count(f"rejected:conj_trans:{type(e).__name__}")
+            # apply to a state
+            sector = pick_sector(rng, basis, k)
+            mps, m_max = random_state(run, rng, model, spec, basis, k, sector)
+            if mps is None:
+                run.count("op:no-state")
+                continue
+            mode = int(rng.integers(4))
+            if mode == 1:
+                mps.canonicalise()     # centre at 0: operator and state centres differ
+            elif mode == 2:
+                mps.move_qnidx(int(rng.integers(0, mps.site_num)))
+            target = [int(a + b) for a, b in zip(sector, q)]
+            try:
+                new = mpo.apply(mps) if rng.random() < 0.7 else mpo @ mps
+            except Exception as e:
+                run.count(f"rejected:apply:{type(e).__name__}")
+                continue
+            probs = check_chain(new, target)
+            replay2 = dict(replay, sector=sector, m_max=m_max, state_centre=int(mps.qnidx), target=target)
+            if probs:
+                run.violation("Mpo.apply:" + ("charged:" if any(q) else "neutral:") + short(probs), dict(replay2, problems=probs))
+                continue
+            if new.qnidx != mps.qnidx:
+                run.violation("Mpo.apply:centre-moved", dict(replay2, got=int(new.qnidx)))
+            distinct.add(("apply", len(spec), k, tuple(q), tuple(sector), mode))
+            v, _ = L.chain_dense(new)
+            if np.linalg.norm(v) < 1e-12:
+                run.count("op:apply:annihilated")
+                continue
+            # canonicalise / compress of the shifted state keep it in the shifted sector
+            try:
+                w = new.copy()
+                w.ensure_left_canonical() if rng.random() < 0.5 else w.ensure_right_canonical()
+                probs = check_chain(w, target)
+                if probs:
+                    run.violation("Mpo.apply+canonicalise:" + short(probs), dict(replay2, problems=probs))
+                    continue
+                w.compress(temp_m_trunc=int(rng.integers(1, 4)))
+                probs = check_chain(w, target)
+                if probs:
+                    run.violation("Mpo.apply+compress:" + short(probs), dict(replay2, problems=probs))
+            except Exception as e:
+                run.count(f"rejected:apply-then-canonicalise:{type(e).__name__}")
+            # operator product: charges add
+            if rng.random() < 0.3:
+                try:
+                    prod = mpo.apply(mpo)
+                    probs = check_chain(prod, [2 * x for x in q])
+                    if probs:
+                        run.violation("Mpo.apply(Mpo):" + short(probs), dict(replay, problems=probs))
+                    run.count("op:mpo@mpo")
+                except Exception as e:
+                    run.count(f"rejected:mpo@mpo:{type(e).__name__}")
+        except Exception as e:  # set-up call of the library failed: counted, never propagated
+            run.count("rejected:part_operators:setup:" + type(e).__name__)
     return n_eval, len(distinct)
 
 
@@ -408,141 +466,144 @@ def part_histories(run, rng, ncases, quick, t_end):
     n_eval = 0
     distinct = set()
     for _ in range(ncases):
-        if time.time() > t_end:
-            run.count("hist:time-guard")
-            break
-        g = gen_model(rng, quick, nmax=6)
-        if g is None:
-            continue
-        spec, basis, k, model = g
-        sector = pick_sector(rng, basis, k)
-        cur, m0 = random_state(run, rng, model, spec, basis, k, sector)
-        if cur is None:
-            continue
-        terms, tdesc = L.hermitian_conserving_terms(rng, spec, k, int(rng.integers(1, 4)))
-        H = None
-        if terms:
-            try:
-                H = Mpo(model, terms)
-            except Exception as e:
-                run.count(f"rejected:Mpo:{type(e).__name__}")
-        hist = []
-        replay = dict(spec=L.jsonable(spec), sector=sector, m_max0=m0, terms=tdesc, history=hist)
-        nsteps = int(rng.integers(2, 9))
-        for step in range(nsteps):
-            op = OPS[int(rng.integers(len(OPS)))]
-            info = dict(op=op, centre_before=int(cur.qnidx), to_right=bool(cur.to_right))
-            sig_extra = ""
-            try:
-                if op in ("add", "add_other_centre", "sub"):
-                    other, m1 = random_state(run, rng, model, spec, basis, k, sector)
-                    if other is None:
-                        break
-                    if op == "add_other_centre":
-                        # bring the operands to different centres through public calls
-                        if rng.random() < 0.5:
-                            other.canonicalise()
-                        else:
-                            other.move_qnidx(int(rng.integers(0, other.site_num)))
-                    if rng.random() < 0.3:
-                        other = other.scale(complex(0.3, 0.4))
-                    info.update(other_m_max=m1, other_centre=int(other.qnidx))
-                    differ = other.qnidx != cur.qnidx
-                    if rng.random() < 0.5:
-                        new = cur.add(other) if op != "sub" else cur - other
-                        info["order"] = "cur+other"
-                    else:
-                        new = other.add(cur) if op != "sub" else other - cur
-                        info["order"] = "other+cur"
-                    sig_extra = "centres-differ" if differ else "same-centre"
-                elif op == "scale":
-                    c = [2.0, -1.0, 0.5, complex(0, 1), complex(0.6, -0.8), 1e-3][int(rng.integers(6))]
-                    info["factor"] = L.jsonable(c)
-                    new = cur.scale(c, inplace=bool(rng.integers(2)))
-                elif op == "canon_l":
-                    new = cur.ensure_left_canonical()
-                elif op == "canon_r":
-                    new = cur.ensure_right_canonical()
-                elif op == "canonicalise_mid":
-                    new = cur.ensure_left_canonical() if rng.random() < 0.5 else cur.ensure_right_canonical()
-                    stop = int(rng.integers(1, new.site_num)) if new.site_num > 1 else None
-                    if new.to_right:
-                        # right-canonical, centre 0, sweeping right up to `stop`
-                        if stop is not None and stop > new.qnidx:
-                            new = new.canonicalise(stop_idx=stop)
-                    else:
-                        if stop is not None and stop - 1 < new.qnidx:
-                            new = new.canonicalise(stop_idx=stop - 1)
-                    info["stop"] = stop
-                elif op == "compress":
-                    new = cur.ensure_left_canonical() if rng.random() < 0.5 else cur.ensure_right_canonical()
-                    crit = ["fixed", "threshold", "both"][int(rng.integers(3))]
-                    thr = float(10.0 ** rng.uniform(-4, -0.7))
-                    M = int(rng.integers(1, 5))
-                    new.compress_config = CompressConfig(getattr(CompressCriteria, crit), threshold=thr, max_bonddim=M)
-                    info.update(criteria=crit, threshold=thr, M=M)
-                    new = new.compress()
-                elif op == "move":
-                    dst = int(rng.integers(0, cur.site_num))
-                    info["dst"] = dst
-                    cur.move_qnidx(dst)
-                    new = cur
-                elif op == "conj":
-                    new = cur.conj()
-                elif op == "copy":
-                    new = cur.copy()
-                elif op == "to_complex":
-                    new = cur.to_complex(inplace=bool(rng.integers(2)))
-                elif op == "normalize":
-                    kind = ["mps_only", "mps_and_coeff", "mps_norm_to_coeff"][int(rng.integers(3))]
-                    info["kind"] = kind
-                    new = cur.normalize(kind)
-                elif op == "applyH":
-                    if H is None:
-                        continue
-                    new = H.apply(cur, canonicalise=False)
-                    if max(new.bond_dims) > 60:
-                        new = new.ensure_left_canonical()
-                        new.compress(temp_m_trunc=8)
-                elif op == "contractH":
-                    if H is None:
-                        continue
-                    w = cur.copy()
-                    w.compress_config = CompressConfig(CompressCriteria.fixed, max_bonddim=int(rng.integers(1, 6)))
-                    # contract = apply -> canonicalise -> compress; canonicalise needs the centre at an end
-                    w.ensure_left_canonical() if rng.random() < 0.5 else w.ensure_right_canonical()
-                    new = H.contract(w)
-                else:
-                    continue
-            except Exception as e:
-                run.count(f"rejected:hist:{op}:{type(e).__name__}")
-                info["error"] = f"{type(e).__name__}: {e}"
-                hist.append(info)
+        try:
+            if time.time() > t_end:
+                run.count("hist:time-guard")
                 break
-            hist.append(info)
-            n_eval += 1
-            run.count("hist:" + op + ((":" + sig_extra) if sig_extra else ""))
-            probs = check_chain(new, sector)
-            if probs:
-                if op in ("add", "add_other_centre", "sub"):
-                    sig = SIG_D1 if (sig_extra == "centres-differ" and short(probs) == "labels") else f"add:{sig_extra}:{short(probs)}"
-                else:
-                    sig = f"{op}:{short(probs)}"
-                run.violation(sig, dict(replay, problems=probs, failing_step=len(hist) - 1))
-                break
-            cur = new
-            v, _ = L.chain_dense(cur)
-            if np.linalg.norm(v) < 1e-9:
-                run.count("hist:state-vanished")
-                break
-            if max(cur.bond_dims) > 40:
+            g = gen_model(rng, quick, nmax=6)
+            if g is None:
+                continue
+            spec, basis, k, model = g
+            sector = pick_sector(rng, basis, k)
+            cur, m0 = random_state(run, rng, model, spec, basis, k, sector)
+            if cur is None:
+                continue
+            terms, tdesc = L.hermitian_conserving_terms(rng, spec, k, int(rng.integers(1, 4)))
+            H = None
+            if terms:
                 try:
-                    cur = cur.ensure_left_canonical()
-                    cur.compress(temp_m_trunc=8)
+                    H = Mpo(model, terms)
                 except Exception as e:
-                    run.count(f"rejected:hist:shrink:{type(e).__name__}")
+                    run.count(f"rejected:Mpo:{type(e).__name__}")
+            hist = []
+            replay = dict(spec=L.jsonable(spec), sector=sector, m_max0=m0, terms=tdesc, history=hist)
+            nsteps = int(rng.integers(2, 9))
+            for step in range(nsteps):
+                op = OPS[int(rng.integers(len(OPS)))]
+                info = dict(op=op, centre_before=int(cur.qnidx), to_right=bool(cur.to_right))
+                sig_extra = ""
+                try:
+                    if op in ("add", "add_other_centre", "sub"):
+                        other, m1 = random_state(run, rng, model, spec, basis, k, sector)
+                        if other is None:
+                            break
+                        if op == "add_other_centre":
+                            # bring the operands to different centres through public calls
+                            if rng.random() < 0.5:
+                                other.canonicalise()
+                            else:
+                                other.move_qnidx(int(rng.integers(0, other.site_num)))
+                        if rng.random() < 0.3:
+                            other = other.scale(complex(0.3, 0.4))
+                        info.update(other_m_max=m1, other_centre=int(other.qnidx))
+                        differ = other.qnidx != cur.qnidx
+                        if rng.random() < 0.5:
+                            new = cur.add(other) if op != "sub" else cur - other
+                            info["order"] = "cur+other"
+                        else:
+                            new = other.add(cur) if op != "sub" else other - cur
+                            info["order"] = "other+cur"
+                        sig_extra = "centres-differ" if differ else "same-centre"
+                    elif op == "scale":
+                        c = [2.0, -1.0, 0.5, complex(0, 1), complex(0.6, -0.8), 1e-3][int(rng.integers(6))]
+                        info["factor"] = L.jsonable(c)
+                        new = cur.scale(c, inplace=bool(rng.integers(2)))
+                    elif op == "canon_l":
+                        new = cur.ensure_left_canonical()
+                    elif op == "canon_r":
+                        new = cur.ensure_right_canonical()
+                    elif op == "canonicalise_mid":
+                        new = cur.ensure_left_canonical() if rng.random() < 0.5 else cur.ensure_right_canonical()
+                        stop = int(rng.integers(1, new.site_num)) if new.site_num > 1 else None
+                        if new.to_right:
+                            # right-canonical, centre 0, sweeping right up to `stop`
+                            if stop is not None and stop > new.qnidx:
+                                new = new.canonicalise(stop_idx=stop)
+                        else:
+                            if stop is not None and stop - 1 < new.qnidx:
+                                new = new.canonicalise(stop_idx=stop - 1)
+                        info["stop"] = stop
+                    elif op == "compress":
+                        new = cur.ensure_left_canonical() if rng.random() < 0.5 else cur.ensure_right_canonical()
+                        crit = ["fixed", "threshold", "both"][int(rng.integers(3))]
+                        thr = float(10.0 ** rng.uniform(-4, -0.7))
+                        M = int(rng.integers(1, 5))
+                        new.compress_config = CompressConfig(getattr(CompressCriteria, crit), threshold=thr, max_bonddim=M)
+                        info.update(criteria=crit, threshold=thr, M=M)
+                        new = new.compress()
+                    elif op == "move":
+                        dst = int(rng.integers(0, cur.site_num))
+                        info["dst"] = dst
+                        cur.move_qnidx(dst)
+                        new = cur
+                    elif op == "conj":
+                        new = cur.conj()
+                    elif op == "copy":
+                        new = cur.copy()
+                    elif op == "to_complex":
+                        new = cur.to_complex(inplace=bool(rng.integers(2)))
+                    elif op == "normalize":
+                        kind = ["mps_only", "mps_and_coeff", "mps_norm_to_coeff"][int(rng.integers(3))]
+                        info["kind"] = kind
+                        new = cur.normalize(kind)
+                    elif op == "applyH":
+                        if H is None:
+                            continue
+                        new = H.apply(cur, canonicalise=False)
+                        if max(new.bond_dims) > 60:
+                            new = new.ensure_left_canonical()
+                            new.compress(temp_m_trunc=8)
+                    elif op == "contractH":
+                        if H is None:
+                            continue
+                        w = cur.copy()
+                        w.compress_config = CompressConfig(CompressCriteria.fixed, max_bonddim=int(rng.integers(1, 6)))
+                        # contract = apply -> canonicalise -> compress; canonicalise needs the centre at an end
+                        w.ensure_left_canonical() if rng.random() < 0.5 else w.ensure_right_canonical()
+                        new = H.contract(w)
+                    else:
+                        continue
+                except Exception as e:
+                    run.count(f"rejected:hist:{op}:{type(e).__name__}")
+                    info["error"] = f"{type(e).__name__}: {e}"
+                    hist.append(info)
                     break
-        distinct.add((len(spec), k, tuple(sector), tuple(h["op"] for h in hist)))
+                hist.append(info)
+                n_eval += 1
+                run.count("hist:" + op + ((":" + sig_extra) if sig_extra else ""))
+                probs = check_chain(new, sector)
+                if probs:
+                    if op in ("add", "add_other_centre", "sub"):
+                        sig = SIG_D1 if (sig_extra == "centres-differ" and short(probs) == "labels") else f"add:{sig_extra}:{short(probs)}"
+                    else:
+                        sig = f"{op}:{short(probs)}"
+                    run.violation(sig, dict(replay, problems=probs, failing_step=len(hist) - 1))
+                    break
+                cur = new
+                v, _ = L.chain_dense(cur)
+                if np.linalg.norm(v) < 1e-9:
+                    run.count("hist:state-vanished")
+                    break
+                if max(cur.bond_dims) > 40:
+                    try:
+                        cur = cur.ensure_left_canonical()
+                        cur.compress(temp_m_trunc=8)
+                    except Exception as e:
+                        run.count(f"rejected:hist:shrink:{type(e).__name__}")
+                        break
+            distinct.add((len(spec), k, tuple(sector), tuple(h["op"] for h in hist)))
+        except Exception as e:  # set-up call of the library failed: counted, never propagated
+            run.count("rejected:part_histories:setup:" + type(e).__name__)
     return n_eval, len(distinct)
 
 
@@ -556,63 +617,73 @@ def part_dmrg(run, rng, ncases, quick, t_end):
     n_eval = 0
     distinct = set()
     for _ in range(ncases):
-        if time.time() > t_end:
-            run.count("dmrg:time-guard")
-            break
-        g = gen_model(rng, quick, nmax=6)
-        if g is None:
-            continue
-        spec, basis, k, model = g
-        sector = pick_sector(rng, basis, k)
-        terms, tdesc = L.hermitian_conserving_terms(rng, spec, k, int(rng.integers(2, 6)))
-        if not terms:
-            continue
         try:
-            H = Mpo(model, terms)
-        except Exception as e:
-            run.count(f"rejected:Mpo:{type(e).__name__}")
-            continue
-        mps, m0 = random_state(run, rng, model, spec, basis, k, sector)
-        if mps is None:
-            continue
-        method = ["1site", "2site"][int(rng.integers(2))]
-        nroots = 1 if rng.random() < 0.7 else 2
-        M = int(rng.integers(1, 7))
-        proc = []
-        for _s in range(int(rng.integers(2, 5))):
-            pc = float(rng.choice([0, 0.2, 0.5]))
-            if rng.random() < 0.3:
-                crit = ["threshold", "both"][int(rng.integers(2))]
-                proc.append([CompressConfig(getattr(CompressCriteria, crit), threshold=float(10.0 ** rng.uniform(-5, -1)), max_bonddim=M), pc])
-            else:
-                proc.append([M, pc])
-        proc.append([M, 0])
-        mps.optimize_config.procedure = proc
-        mps.optimize_config.method = method
-        mps.optimize_config.nroots = nroots
-        if rng.random() < 0.5:
-            mps.canonicalise()       # start from the other canonical form
-        replay = dict(spec=L.jsonable(spec), sector=sector, terms=tdesc, method=method, nroots=nroots, M=M, m_max0=m0,
-                      procedure=[[p[0] if isinstance(p[0], int) else str(p[0].criteria.value), p[1]] for p in proc])
-        L.reseed(rng)
-        try:
-            energies, res = optimize_mps(mps, H)
-        except Exception as e:
-            run.count(f"rejected:optimize_mps:{method}:{type(e).__name__}")
-            continue
-        n_eval += 1
-        run.count(f"dmrg:{method}:nroots{nroots}:" + ("2comp" if k == 2 else "1comp"))
-        outs = res if isinstance(res, list) else [res]
-        for r_i, r in enumerate(outs):
-            probs = check_chain(r, sector)
-            if probs:
-                run.violation(f"optimize_mps:{method}:" + ("multi-root:" if nroots > 1 else "") + short(probs), dict(replay, root=r_i, problems=probs))
+            if time.time() > t_end:
+                run.count("dmrg:time-guard")
                 break
-        # the sweeping state itself (overwritten input) must also stay in the sector
-        probs = check_chain(mps, sector)
-        if probs:
-            run.violation(f"optimize_mps:{method}:work-state:" + short(probs), dict(replay, problems=probs))
-        distinct.add((len(spec), k, tuple(sector), method, nroots, M))
+            g = gen_model(rng, quick, nmax=6)
+            if g is None:
+                continue
+            spec, basis, k, model = g
+            sector = pick_sector(rng, basis, k)
+            terms, tdesc = L.hermitian_conserving_terms(rng, spec, k, int(rng.integers(2, 6)))
+            if not terms:
+                continue
+            try:
+                H = Mpo(model, terms)
+            except Exception as e:
+                run.count(f"rejected:Mpo:{type(e).__name__}")
+                continue
+            mps, m0 = random_state(run, rng, model, spec, basis, k, sector)
+            if mps is None:
+                continue
+            method = ["1site", "2site"][int(rng.integers(2))]
+            nroots = 1 if rng.random() < 0.7 else 2
+            M = int(rng.integers(1, 7))
+            proc = []
+            for _s in range(int(rng.integers(2, 5))):
+                pc = float(rng.choice([0, 0.2, 0.5]))
+                if rng.random() < 0.3:
+                    crit = ["threshold", "both"][int(rng.integers(2))]
+                    proc.append([CompressConfig(getattr(CompressCriteria, crit), threshold=float(10.0 ** rng.uniform(-5, -1)), max_bonddim=M), pc])
+                else:
+                    proc.append([M, pc])
+            proc.append([M, 0])
+            mps.optimize_config.procedure = proc
+            mps.optimize_config.method = method
+            mps.optimize_config.nroots = nroots
+            if rng.random() < 0.5:
+                mps.canonicalise()       # start from the other canonical form
+            replay = dict(spec=L.jsonable(spec), sector=sector, terms=tdesc, method=method, nroots=nroots, M=M, m_max0=m0,
+                          procedure=[[p[0] if isinstance(p[0], int) else str(p[0].criteria.value), p[1]] for p in proc])
+            L.reseed(rng)
+            found = []
+            try:
+                with watch_local_updates(found):
+                    energies, res = optimize_mps(mps, H)
+            except Exception as e:
+                run.count(f"rejected:optimize_mps:{method}:{type(e).__name__}")
+                if found:
+                    run.violation(f"optimize_mps:{method}:local-update:labels", dict(replay, problems=found))
+                continue
+            if found:
+                run.violation(f"optimize_mps:{method}:local-update:labels", dict(replay, problems=found))
+                continue
+            n_eval += 1
+            run.count(f"dmrg:{method}:nroots{nroots}:" + ("2comp" if k == 2 else "1comp"))
+            outs = res if isinstance(res, list) else [res]
+            for r_i, r in enumerate(outs):
+                probs = check_chain(r, sector)
+                if probs:
+                    run.violation(f"optimize_mps:{method}:" + ("multi-root:" if nroots > 1 else "") + short(probs), dict(replay, root=r_i, problems=probs))
+                    break
+            # the sweeping state itself (overwritten input) must also stay in the sector
+            probs = check_chain(mps, sector)
+            if probs:
+                run.violation(f"optimize_mps:{method}:work-state:" + short(probs), dict(replay, problems=probs))
+            distinct.add((len(spec), k, tuple(sector), method, nroots, M))
+        except Exception as e:  # set-up call of the library failed: counted, never propagated
+            run.count("rejected:part_dmrg:setup:" + type(e).__name__)
     return n_eval, len(distinct)
 
 
@@ -634,82 +705,97 @@ def part_evolve(run, rng, ncases, quick, t_end):
     n_eval = 0
     distinct = set()
     for case in range(ncases):
-        if time.time() > t_end:
-            run.count("evolve:time-guard")
-            break
-        g = gen_model(rng, quick, nmax=5)
-        if g is None:
-            continue
-        spec, basis, k, model = g
-        if np.prod([b.nbas for b in basis], dtype=np.int64) > 300:
-            continue
-        sector = pick_sector(rng, basis, k)
-        terms, tdesc = L.hermitian_conserving_terms(rng, spec, k, int(rng.integers(2, 5)))
-        if not terms:
-            continue
         try:
-            H = Mpo(model, terms)
-        except Exception as e:
-            run.count(f"rejected:Mpo:{type(e).__name__}")
-            continue
-        mps, m0 = random_state(run, rng, model, spec, basis, k, sector)
-        if mps is None:
-            continue
-        method = methods[case % len(methods)]
-        imag = rng.random() < 0.35
-        dt = float(rng.choice([0.02, 0.1, 0.3]))
-        tau = complex(0, -dt) if imag else dt
-        use_mpdm = rng.random() < 0.15 and len(basis) <= 4 and np.prod([b.nbas for b in basis]) <= 40
-        try:
-            # strip redundant bonds (D11 concerns over-complete inputs of the mean-field schemes; C09)
-            mps.ensure_left_canonical()
-            mps.compress(temp_m_trunc=int(rng.integers(1, 6)))
-            st = MpDm.from_mps(mps) if use_mpdm else mps
-            st.compress_config = CompressConfig(CompressCriteria.fixed, max_bonddim=int(rng.integers(2, 8)))
-            if method == EvolveMethod.prop_and_compress and rng.random() < 0.5:
-                st.compress_config = CompressConfig(CompressCriteria.threshold, threshold=1e-4)
-            kw = {}
-            if method in (EvolveMethod.tdvp_ps, EvolveMethod.tdvp_ps2, EvolveMethod.tdvp_mu_cmf):
-                kw["ivp_solver"] = ["krylov", "RK45"][int(rng.integers(2))]
-            if method in (EvolveMethod.tdvp_mu_vmf, EvolveMethod.tdvp_vmf, EvolveMethod.tdvp_mu_cmf):
-                kw["force_ovlp"] = bool(rng.integers(2))
-            if imag and method in (EvolveMethod.prop_and_compress_tdrk, EvolveMethod.prop_and_compress):
-                kw["guess_dt"] = tau
-            if method == EvolveMethod.tdvp_mu_cmf and len(basis) < 3:
-                # 2-site chains make scipy.stats.describe divide by zero inside a logging statistic
-                run.count("evolve:tdvp_mu_cmf:two-site-skipped")
+            if time.time() > t_end:
+                run.count("evolve:time-guard")
+                break
+            g = gen_model(rng, quick, nmax=5)
+            if g is None:
                 continue
-            st.evolve_config = EvolveConfig(method, **kw)
-            if method in (EvolveMethod.tdvp_mu_vmf, EvolveMethod.tdvp_vmf):
-                st.evolve_config.vmf_auto_switch = False
-            if rng.random() < 0.3:
-                st.ensure_right_canonical()
-        except Exception as e:
-            run.count(f"rejected:evolve-setup:{type(e).__name__}")
-            continue
-        replay = dict(spec=L.jsonable(spec), sector=sector, terms=tdesc, method=method.name, dt=L.jsonable(tau), m_max0=m0,
-                      kind="mpdm" if use_mpdm else "mps", config=kw, in_bond_dims=[int(x) for x in st.bond_dims])
-        nsteps = int(rng.integers(1, 3))
-        cur = st
-        ok = True
-        for s_i in range(nsteps):
-            L.reseed(rng)
+            spec, basis, k, model = g
+            if np.prod([b.nbas for b in basis], dtype=np.int64) > 300:
+                continue
+            sector = pick_sector(rng, basis, k)
+            terms, tdesc = L.hermitian_conserving_terms(rng, spec, k, int(rng.integers(2, 5)))
+            if not terms:
+                continue
             try:
-                cur = cur.evolve(H, tau, normalize=bool(rng.integers(2)))
+                H = Mpo(model, terms)
             except Exception as e:
-                run.count(f"rejected:evolve:{method.name}:{type(e).__name__}")
-                ok = False
-                break
-            n_eval += 1
-            run.count(f"evolve:{method.name}:" + ("imag" if imag else "real") + (":mpdm" if use_mpdm else ""))
-            probs = check_chain(cur, sector)
-            if probs:
-                run.violation(f"evolve:{method.name}:" + ("imag:" if imag else "real:") + ("mpdm:" if use_mpdm else "") + short(probs),
-                              dict(replay, step=s_i, problems=probs))
-                ok = False
-                break
-        if ok:
-            distinct.add((len(spec), k, tuple(sector), method.name, imag, use_mpdm))
+                run.count(f"rejected:Mpo:{type(e).__name__}")
+                continue
+            mps, m0 = random_state(run, rng, model, spec, basis, k, sector)
+            if mps is None:
+                continue
+            method = methods[case % len(methods)]
+            imag = rng.random() < 0.35
+            dt = float(rng.choice([0.02, 0.1, 0.3]))
+            tau = complex(0, -dt) if imag else dt
+            use_mpdm = rng.random() < 0.15 and len(basis) <= 4 and np.prod([b.nbas for b in basis]) <= 40
+            try:
+                # strip redundant bonds (D11 concerns over-complete inputs of the mean-field schemes; C09)
+                mps.ensure_left_canonical()
+                mean_field = method in (EvolveMethod.tdvp_mu_vmf, EvolveMethod.tdvp_vmf, EvolveMethod.tdvp_mu_cmf)
+                if mean_field or rng.random() < 0.5:
+                    mps.compress(temp_m_trunc=int(rng.integers(1, 6)))
+                else:
+                    run.count("evolve:input-with-redundant-bonds-allowed")
+                st = MpDm.from_mps(mps) if use_mpdm else mps
+                st.compress_config = CompressConfig(CompressCriteria.fixed, max_bonddim=int(rng.integers(2, 8)))
+                if method == EvolveMethod.prop_and_compress and rng.random() < 0.5:
+                    st.compress_config = CompressConfig(CompressCriteria.threshold, threshold=1e-4)
+                kw = {}
+                if method in (EvolveMethod.tdvp_ps, EvolveMethod.tdvp_ps2, EvolveMethod.tdvp_mu_cmf):
+                    kw["ivp_solver"] = ["krylov", "RK45"][int(rng.integers(2))]
+                if method in (EvolveMethod.tdvp_mu_vmf, EvolveMethod.tdvp_vmf, EvolveMethod.tdvp_mu_cmf):
+                    kw["force_ovlp"] = bool(rng.integers(2))
+                if imag and method in (EvolveMethod.prop_and_compress_tdrk, EvolveMethod.prop_and_compress):
+                    kw["guess_dt"] = tau
+                if method == EvolveMethod.tdvp_mu_cmf and len(basis) < 3:
+                    # 2-site chains make scipy.stats.describe divide by zero inside a logging statistic
+                    run.count("evolve:tdvp_mu_cmf:two-site-skipped")
+                    continue
+                st.evolve_config = EvolveConfig(method, **kw)
+                if method in (EvolveMethod.tdvp_mu_vmf, EvolveMethod.tdvp_vmf):
+                    st.evolve_config.vmf_auto_switch = False
+                if rng.random() < 0.3:
+                    st.ensure_right_canonical()
+            except Exception as e:
+                run.count(f"rejected:evolve-setup:{type(e).__name__}")
+                continue
+            replay = dict(spec=L.jsonable(spec), sector=sector, terms=tdesc, method=method.name, dt=L.jsonable(tau), m_max0=m0,
+                          kind="mpdm" if use_mpdm else "mps", config=kw, in_bond_dims=[int(x) for x in st.bond_dims])
+            nsteps = int(rng.integers(1, 3))
+            cur = st
+            ok = True
+            for s_i in range(nsteps):
+                L.reseed(rng)
+                found = []
+                try:
+                    with watch_local_updates(found):
+                        cur = cur.evolve(H, tau, normalize=bool(rng.integers(2)))
+                except Exception as e:
+                    run.count(f"rejected:evolve:{method.name}:{type(e).__name__}")
+                    ok = False
+                    if found:
+                        run.violation(f"evolve:{method.name}:local-update:labels", dict(replay, step=s_i, problems=found))
+                    break
+                if found:
+                    run.violation(f"evolve:{method.name}:local-update:labels", dict(replay, step=s_i, problems=found))
+                    ok = False
+                    break
+                n_eval += 1
+                run.count(f"evolve:{method.name}:" + ("imag" if imag else "real") + (":mpdm" if use_mpdm else ""))
+                probs = check_chain(cur, sector)
+                if probs:
+                    run.violation(f"evolve:{method.name}:" + ("imag:" if imag else "real:") + ("mpdm:" if use_mpdm else "") + short(probs),
+                                  dict(replay, step=s_i, problems=probs))
+                    ok = False
+                    break
+            if ok:
+                distinct.add((len(spec), k, tuple(sector), method.name, imag, use_mpdm))
+        except Exception as e:  # set-up call of the library failed: counted, never propagated
+            run.count("rejected:part_evolve:setup:" + type(e).__name__)
     return n_eval, len(distinct)
 
 
@@ -722,83 +808,86 @@ def part_mpdm(run, rng, ncases, quick, t_end):
     n_eval = 0
     distinct = set()
     for _ in range(ncases):
-        if time.time() > t_end:
-            break
-        g = gen_model(rng, quick, nmax=5)
-        if g is None:
-            continue
-        spec, basis, k, model = g
-        if np.prod([b.nbas for b in basis], dtype=np.int64) > 60:
-            continue
-        sector = pick_sector(rng, basis, k)
-        mps, m0 = random_state(run, rng, model, spec, basis, k, sector)
-        if mps is None:
-            continue
-        if rng.random() < 0.5:
-            mps.canonicalise()
-        replay = dict(spec=L.jsonable(spec), sector=sector, m_max0=m0, centre=int(mps.qnidx))
         try:
-            dm = MpDm.from_mps(mps)
-        except Exception as e:
-            run.count(f"rejected:MpDm.from_mps:{type(e).__name__}")
-            continue
-        n_eval += 1
-        probs = check_chain(dm, sector)
-        if probs:
-            run.violation("MpDm.from_mps:" + short(probs), dict(replay, problems=probs))
-            continue
-        ct = L.charged_terms(rng, spec, k, 2) if rng.random() < 0.5 else None
-        if ct is not None:
-            terms, tdesc, q = ct
-        else:
-            terms, tdesc = L.hermitian_conserving_terms(rng, spec, k, 2)
-            q = [0] * k
-        if not terms:
-            continue
-        try:
-            O = Mpo(model, terms)
-        except Exception as e:
-            run.count(f"rejected:Mpo:{type(e).__name__}")
-            continue
-        target = [int(a + b) for a, b in zip(sector, q)]
-        try:
-            new = O.apply(dm)     # operator acting on the physical index
-        except Exception as e:
-            run.count(f"rejected:Mpo.apply(MpDm):{type(e).__name__}")
-            continue
-        n_eval += 1
-        run.count("mpdm:O@dm:" + ("charged" if any(q) else "neutral"))
-        probs = check_chain(new, target)
-        if probs:
-            run.violation("Mpo.apply(MpDm):" + short(probs), dict(replay, terms=tdesc, q=q, problems=probs))
-            continue
-        if not any(q):
-            # dm . O acts on the ancilla index, which carries no charge: sector unchanged
+            if time.time() > t_end:
+                break
+            g = gen_model(rng, quick, nmax=5)
+            if g is None:
+                continue
+            spec, basis, k, model = g
+            if np.prod([b.nbas for b in basis], dtype=np.int64) > 60:
+                continue
+            sector = pick_sector(rng, basis, k)
+            mps, m0 = random_state(run, rng, model, spec, basis, k, sector)
+            if mps is None:
+                continue
+            if rng.random() < 0.5:
+                mps.canonicalise()
+            replay = dict(spec=L.jsonable(spec), sector=sector, m_max0=m0, centre=int(mps.qnidx))
             try:
-                new2 = dm.apply(O)
-                probs = check_chain(new2, sector)
-                run.count("mpdm:dm@O")
-                if probs:
-                    run.violation("MpDm.apply(Mpo):" + short(probs), dict(replay, terms=tdesc, problems=probs))
-                    continue
+                dm = MpDm.from_mps(mps)
             except Exception as e:
-                run.count(f"rejected:MpDm.apply:{type(e).__name__}")
-        try:
-            v, _ = L.chain_dense(new)
-            if np.linalg.norm(v) > 1e-10:
-                w = new.copy()
-                w.ensure_left_canonical() if rng.random() < 0.5 else w.ensure_right_canonical()
-                w.compress(temp_m_trunc=int(rng.integers(1, 5)))
-                probs = check_chain(w, target)
-                if probs:
-                    run.violation("MpDm:canonicalise+compress:" + short(probs), dict(replay, terms=tdesc, q=q, problems=probs))
-                s = w.add(w.scale(0.5))
-                probs = check_chain(s, target)
-                if probs:
-                    run.violation("MpDm:add:" + short(probs), dict(replay, terms=tdesc, q=q, problems=probs))
-        except Exception as e:
-            run.count(f"rejected:mpdm-sequence:{type(e).__name__}")
-        distinct.add((len(spec), k, tuple(sector), tuple(q)))
+                run.count(f"rejected:MpDm.from_mps:{type(e).__name__}")
+                continue
+            n_eval += 1
+            probs = check_chain(dm, sector)
+            if probs:
+                run.violation("MpDm.from_mps:" + short(probs), dict(replay, problems=probs))
+                continue
+            ct = L.charged_terms(rng, spec, k, 2) if rng.random() < 0.5 else None
+            if ct is not None:
+                terms, tdesc, q = ct
+            else:
+                terms, tdesc = L.hermitian_conserving_terms(rng, spec, k, 2)
+                q = [0] * k
+            if not terms:
+                continue
+            try:
+                O = Mpo(model, terms)
+            except Exception as e:
+                run.count(f"rejected:Mpo:{type(e).__name__}")
+                continue
+            target = [int(a + b) for a, b in zip(sector, q)]
+            try:
+                new = O.apply(dm)     # operator acting on the physical index
+            except Exception as e:
+                run.count(f"rejected:Mpo.apply(MpDm):{type(e).__name__}")
+                continue
+            n_eval += 1
+            run.count("mpdm:O@dm:" + ("charged" if any(q) else "neutral"))
+            probs = check_chain(new, target)
+            if probs:
+                run.violation("Mpo.apply(MpDm):" + short(probs), dict(replay, terms=tdesc, q=q, problems=probs))
+                continue
+            if not any(q):
+                # dm . O acts on the ancilla index, which carries no charge: sector unchanged
+                try:
+                    new2 = dm.apply(O)
+                    probs = check_chain(new2, sector)
+                    run.count("mpdm:dm@O")
+                    if probs:
+                        run.violation("MpDm.apply(Mpo):" + short(probs), dict(replay, terms=tdesc, problems=probs))
+                        continue
+                except Exception as e:
+                    run.count(f"rejected:MpDm.apply:{type(e).__name__}")
+            try:
+                v, _ = L.chain_dense(new)
+                if np.linalg.norm(v) > 1e-10:
+                    w = new.copy()
+                    w.ensure_left_canonical() if rng.random() < 0.5 else w.ensure_right_canonical()
+                    w.compress(temp_m_trunc=int(rng.integers(1, 5)))
+                    probs = check_chain(w, target)
+                    if probs:
+                        run.violation("MpDm:canonicalise+compress:" + short(probs), dict(replay, terms=tdesc, q=q, problems=probs))
+                    s = w.add(w.scale(0.5))
+                    probs = check_chain(s, target)
+                    if probs:
+                        run.violation("MpDm:add:" + short(probs), dict(replay, terms=tdesc, q=q, problems=probs))
+            except Exception as e:
+                run.count(f"rejected:mpdm-sequence:{type(e).__name__}")
+            distinct.add((len(spec), k, tuple(sector), tuple(q)))
+        except Exception as e:  # set-up call of the library failed: counted, never propagated
+            run.count("rejected:part_mpdm:setup:" + type(e).__name__)
     return n_eval, len(distinct)
 
 
@@ -828,157 +917,175 @@ def part_tree(run, rng, ncases, quick, t_end):
     n_eval = 0
     distinct = set()
     for case in range(ncases):
-        if time.time() > t_end:
-            run.count("tree:time-guard")
-            break
-        two = rng.random() < 0.25
-        g = C5.random_tree_basis(rng, quick, two)
-        if g is None:
-            continue
-        tree, k, tdesc = g
-        blist = tree.basis_list
-        if np.prod([b.nbas for b in blist], dtype=np.int64) > 400:
-            continue
-        sector = pick_sector(rng, blist, k)
-        replay = dict(tree=tdesc, sector=sector)
-        # ---- constructors
-        what = "random" if rng.random() < 0.7 else "hartree"
-        if what == "random":
-            m_max = int(rng.integers(1, 7))
-            seed = L.reseed(rng)
-            try:
-                t = TTNS.random(tree, np.array(sector), m_max, percent=float(rng.choice([0, 0.5, 1.0])))
-            except Exception as e:
-                obj = dict(replay, op="TTNS.random", m_max=m_max, numpy_seed=seed, error=f"{type(e).__name__}: {e}")
-                if is_dead_end_error(e):
-                    run.violation(SIG_D15_TREE, obj)
-                else:
-                    run.violation("TTNS.random:raises:" + type(e).__name__, obj)
-                t = None
-                for _r in range(6):
-                    L.reseed(rng)
-                    try:
-                        t = TTNS.random(tree, np.array(sector), m_max + 4 * (_r + 1), percent=1.0)
-                        break
-                    except Exception:
-                        t = None
-                if t is None:
-                    continue
-            replay.update(ctor="random", m_max=m_max)
-        else:
-            cond = random_condition(rng, blist, k)
-            try:
-                t = TTNS(tree, dict(cond))
-            except Exception as e:
-                run.violation("TTNS.hartree:raises:" + type(e).__name__, dict(replay, cond={str(a): b for a, b in cond.items()}, error=str(e)))
+        try:
+            if time.time() > t_end:
+                run.count("tree:time-guard")
+                break
+            two = rng.random() < 0.25
+            g = C5.random_tree_basis(rng, quick, two)
+            if g is None:
                 continue
-            sector = cond_sector(cond, blist, k)
-            replay.update(ctor="hartree", cond={str(a): b for a, b in cond.items()}, sector=sector)
-        n_eval += 1
-        run.count("tree:ctor:" + what + (":2comp" if k == 2 else ""))
-        probs = check_tree(t, blist, k, sector)
-        if probs:
-            run.violation(f"TTNS.{what}:" + short(probs), dict(replay, problems=probs))
-            continue
-        # ---- a short history
-        hist = []
-        replay["history"] = hist
-        H = None
-        Hd = None
-        cur = t
-        for step in range(int(rng.integers(1, 6))):
-            op = ["add", "scale", "canonicalise", "compress", "apply_neutral", "apply_charged", "evolve", "dmrg", "copy"][int(rng.integers(9))]
-            info = dict(op=op)
-            target = sector
-            try:
-                if op == "add":
-                    L.reseed(rng)
-                    try:
-                        other = TTNS.random(tree, np.array(sector), int(rng.integers(2, 8)))
-                    except Exception:
-                        other = cur.copy()
-                    new = cur.add(other.scale(float(rng.choice([1.0, -0.5, 2.0]))))
-                elif op == "scale":
-                    new = cur.scale([2.0, -1.0, complex(0.6, 0.8)][int(rng.integers(3))], inplace=bool(rng.integers(2)))
-                elif op == "canonicalise":
-                    new = cur.canonicalise()
-                elif op == "compress":
-                    new = cur.canonicalise()
-                    crit = ["fixed", "threshold", "both"][int(rng.integers(3))]
-                    new.compress_config = CompressConfig(getattr(CompressCriteria, crit), threshold=float(10.0 ** rng.uniform(-4, -0.7)),
-                                                         max_bonddim=int(rng.integers(1, 5)))
-                    info["criteria"] = crit
-                    new = new.compress()
-                elif op in ("apply_neutral", "apply_charged"):
-                    terms, td, q = tree_terms(rng, tdesc["spec_nodes"], k, "neutral" if op == "apply_neutral" else "charged")
-                    if not terms:
-                        continue
-                    O = TTNO(tree, terms)
-                    info.update(terms=td, q=q)
-                    pr = check_tree(O, blist, k, q, operator=True)
-                    if pr:
-                        run.violation("TTNO.construct:" + short(pr), dict(replay, problems=pr, failing_step=len(hist)))
-                        break
-                    new = O.apply(cur, canonicalise=bool(rng.integers(2)))
-                    target = [int(a + b) for a, b in zip(sector, q)]
-                elif op == "evolve":
-                    terms, td, q = tree_terms(rng, tdesc["spec_nodes"], k, "neutral")
-                    if not terms:
-                        continue
-                    O = TTNO(tree, terms)
-                    method = tmethods[int(rng.integers(len(tmethods)))]
-                    imag = rng.random() < 0.3
-                    w = cur.copy().canonicalise()
-                    w.compress_config = CompressConfig(CompressCriteria.fixed, max_bonddim=int(rng.integers(2, 6)))
-                    w.compress()
-                    if method == EvolveMethod.tdvp_vmf:
-                        w.evolve_config = EvolveConfig(method, ivp_rtol=1e-4, ivp_atol=1e-7, force_ovlp=False)
-                    else:
-                        w.evolve_config = EvolveConfig(method)
-                    info.update(terms=td, method=method.name, imag=imag)
-                    tau = complex(0, -0.05) if imag else 0.05
-                    # normalize() of a tree needs TTNO.dummy, which is not available with two components
-                    new = w.evolve(O, tau, normalize=(k == 1))
-                    op = f"evolve:{method.name}:" + ("imag" if imag else "real")
-                elif op == "dmrg":
-                    terms, td, q = tree_terms(rng, tdesc["spec_nodes"], k, "neutral")
-                    if not terms:
-                        continue
-                    O = TTNO(tree, terms)
-                    w = cur.copy().canonicalise()
-                    M = int(rng.integers(1, 6))
-                    info.update(terms=td, M=M)
-                    L.reseed(rng)
-                    optimize_ttns(w, O, procedure=[[M, 0.4], [M, 0]])
-                    new = w
-                else:
-                    new = cur.copy()
-            except Exception as e:
-                run.count(f"rejected:tree:{op.split(':')[0]}:{type(e).__name__}")
-                info["error"] = f"{type(e).__name__}: {e}"
-                hist.append(info)
-                break
-            hist.append(info)
-            n_eval += 1
-            run.count("tree:" + op)
-            probs = check_tree(new, blist, k, target)
-            if probs:
-                run.violation(f"TTNS.{op}:" + short(probs), dict(replay, problems=probs, failing_step=len(hist) - 1))
-                break
-            cur = new
-            sector = target
-            d = L.tree_dense(cur)
-            if np.linalg.norm(d) < 1e-9:
-                run.count("tree:state-vanished")
-                break
-            if max(cur.bond_dims) > 24:
+            tree, k, tdesc = g
+            blist = tree.basis_list
+            if np.prod([b.nbas for b in blist], dtype=np.int64) > 400:
+                continue
+            sector = pick_sector(rng, blist, k)
+            replay = dict(tree=tdesc, sector=sector)
+            # ---- constructors
+            what = "random" if rng.random() < 0.7 else "hartree"
+            if what == "random":
+                m_max = int(rng.integers(1, 7))
+                seed = L.reseed(rng)
                 try:
-                    cur.canonicalise()
-                    cur.compress(temp_m_trunc=6)
+                    t = TTNS.random(tree, np.array(sector), m_max, percent=float(rng.choice([0, 0.5, 1.0])))
                 except Exception as e:
-                    run.count(f"rejected:tree:shrink:{type(e).__name__}")
+                    obj = dict(replay, op="TTNS.random", m_max=m_max, numpy_seed=seed, error=f"{type(e).__name__}: {e}")
+                    if is_dead_end_error(e):
+                        run.violation(SIG_D15_TREE, obj)
+                    else:
+                        run.violation("TTNS.random:raises:" + type(e).__name__, obj)
+                    t = None
+                    for _r in range(6):
+                        L.reseed(rng)
+                        try:
+                            t = TTNS.random(tree, np.array(sector), m_max + 4 * (_r + 1), percent=1.0)
+                            break
+                        except Exception:
+                            t = None
+                    if t is None:
+                        continue
+                replay.update(ctor="random", m_max=m_max)
+            else:
+                cond = random_condition(rng, blist, k)
+                try:
+                    t = TTNS(tree, dict(cond))
+                except Exception as e:
+                    run.violation("TTNS.hartree:raises:" + type(e).__name__, dict(replay, cond={str(a): b for a, b in cond.items()}, error=str(e)))
+                    continue
+                sector = cond_sector(cond, blist, k)
+                replay.update(ctor="hartree", cond={str(a): b for a, b in cond.items()}, sector=sector)
+            n_eval += 1
+            run.count("tree:ctor:" + what + (":2comp" if k == 2 else ""))
+            probs = check_tree(t, blist, k, sector)
+            if probs:
+                run.violation(f"TTNS.{what}:" + short(probs), dict(replay, problems=probs))
+                continue
+            # ---- a short history
+            hist = []
+            replay["history"] = hist
+            H = None
+            Hd = None
+            cur = t
+            for step in range(int(rng.integers(1, 6))):
+                op = ["add", "scale", "canonicalise", "compress", "apply_neutral", "apply_charged", "evolve", "dmrg", "copy"][int(rng.integers(9))]
+                info = dict(op=op)
+                target = sector
+                try:
+                    if op == "add":
+                        L.reseed(rng)
+                        try:
+                            other = TTNS.random(tree, np.array(sector), int(rng.integers(2, 8)))
+                        except Exception:
+                            other = cur.copy()
+                        new = cur.add(other.scale(float(rng.choice([1.0, -0.5, 2.0]))))
+                    elif op == "scale":
+                        new = cur.scale([2.0, -1.0, complex(0.6, 0.8)][int(rng.integers(3))], inplace=bool(rng.integers(2)))
+                    elif op == "canonicalise":
+                        new = cur.canonicalise()
+                    elif op == "compress":
+                        new = cur.canonicalise()
+                        crit = ["fixed", "threshold", "both"][int(rng.integers(3))]
+                        new.compress_config = CompressConfig(getattr(CompressCriteria, crit), threshold=float(10.0 ** rng.uniform(-4, -0.7)),
+                                                             max_bonddim=int(rng.integers(1, 5)))
+                        info["criteria"] = crit
+                        new = new.compress()
+                    elif op in ("apply_neutral", "apply_charged"):
+                        terms, td, q = tree_terms(rng, tdesc["spec_nodes"], k, "neutral" if op == "apply_neutral" else "charged")
+                        if not terms:
+                            continue
+                        O = TTNO(tree, terms)
+                        info.update(terms=td, q=q)
+                        pr = check_tree(O, blist, k, q, operator=True)
+                        if pr:
+                            run.violation("TTNO.construct:" + short(pr), dict(replay, problems=pr, failing_step=len(hist)))
+                            break
+                        new = O.apply(cur, canonicalise=bool(rng.integers(2)))
+                        target = [int(a + b) for a, b in zip(sector, q)]
+                    elif op == "evolve":
+                        terms, td, q = tree_terms(rng, tdesc["spec_nodes"], k, "neutral")
+                        if not terms:
+                            continue
+                        O = TTNO(tree, terms)
+                        method = tmethods[int(rng.integers(len(tmethods)))]
+                        imag = rng.random() < 0.3
+                        w = cur.copy().canonicalise()
+                        w.compress_config = CompressConfig(CompressCriteria.fixed, max_bonddim=int(rng.integers(2, 6)))
+                        w.compress()
+                        if method == EvolveMethod.tdvp_vmf:
+                            w.evolve_config = EvolveConfig(method, ivp_rtol=1e-4, ivp_atol=1e-7, force_ovlp=False)
+                        else:
+                            w.evolve_config = EvolveConfig(method)
+                        info.update(terms=td, method=method.name, imag=imag)
+                        tau = complex(0, -0.05) if imag else 0.05
+                        # normalize() of a tree needs TTNO.dummy, which is not available with two components
+                        found = []
+                        with watch_local_updates(found):
+                            new = w.evolve(O, tau, normalize=(k == 1))
+                        if found:
+                            hist.append(info)
+                            run.violation(f"TTNS.evolve:{method.name}:local-update:labels", dict(replay, problems=found, failing_step=len(hist) - 1))
+                            break
+                        op = f"evolve:{method.name}:" + ("imag" if imag else "real")
+                    elif op == "dmrg":
+                        terms, td, q = tree_terms(rng, tdesc["spec_nodes"], k, "neutral")
+                        if not terms:
+                            continue
+                        O = TTNO(tree, terms)
+                        w = cur.copy().canonicalise()
+                        M = int(rng.integers(1, 6))
+                        info.update(terms=td, M=M)
+                        L.reseed(rng)
+                        found = []
+                        try:
+                            with watch_local_updates(found):
+                                optimize_ttns(w, O, procedure=[[M, 0.4], [M, 0]])
+                        finally:
+                            if found:
+                                hist.append(info)
+                                run.violation("optimize_ttns:local-update:labels", dict(replay, problems=found, failing_step=len(hist) - 1))
+                        if found:
+                            break
+                        new = w
+                    else:
+                        new = cur.copy()
+                except Exception as e:
+                    run.count(f"rejected:tree:{op.split(':')[0]}:{type(e).__name__}")
+                    info["error"] = f"{type(e).__name__}: {e}"
+                    hist.append(info)
                     break
-        distinct.add((tuple(tdesc["parents"]), k, tuple(replay["sector"]), tuple(h["op"] for h in hist)))
+                hist.append(info)
+                n_eval += 1
+                run.count("tree:" + op)
+                probs = check_tree(new, blist, k, target)
+                if probs:
+                    run.violation(f"TTNS.{op}:" + short(probs), dict(replay, problems=probs, failing_step=len(hist) - 1))
+                    break
+                cur = new
+                sector = target
+                d = L.tree_dense(cur)
+                if np.linalg.norm(d) < 1e-9:
+                    run.count("tree:state-vanished")
+                    break
+                if max(cur.bond_dims) > 24:
+                    try:
+                        cur.canonicalise()
+                        cur.compress(temp_m_trunc=6)
+                    except Exception as e:
+                        run.count(f"rejected:tree:shrink:{type(e).__name__}")
+                        break
+            distinct.add((tuple(tdesc["parents"]), k, tuple(replay["sector"]), tuple(h["op"] for h in hist)))
+        except Exception as e:  # set-up call of the library failed: counted, never propagated
+            run.count("rejected:part_tree:setup:" + type(e).__name__)
     return n_eval, len(distinct)
 
 
@@ -986,11 +1093,24 @@ def part_tree(run, rng, ncases, quick, t_end):
 # directed minimal reproductions of the known defects in scope (always exercised)
 # ------------------------------------------------------------------------------------------
 def directed(run, rng):
-    from renormalizer import Model, Mps, Mpo, Op
+    for fn in (_directed_d1, _directed_d2, _directed_d15):
+        try:
+            fn(run, rng)
+        except Exception as e:
+            run.count(f"rejected:directed:{fn.__name__}:{type(e).__name__}")
+
+
+def _directed_model():
+    from renormalizer import Model
     spec = [("e", 0)] * 4
     basis, k = L.make_basis(spec)
-    model = Model(basis, [])
-    # D1: same state, two centres
+    return spec, basis, k, Model(basis, [])
+
+
+def _directed_d1(run, rng):
+    """D1: the same state at two centres"""
+    from renormalizer import Mps
+    spec, basis, k, model = _directed_model()
     L.reseed(rng)
     a = None
     for _ in range(20):
@@ -999,17 +1119,23 @@ def directed(run, rng):
             break
         except FloatingPointError:
             continue
-    if a is not None:
-        b = a.copy()
-        b.canonicalise()            # centre 0
-        s = a.add(b)
-        probs = check_chain(s, [2])
-        if probs:
-            sig = SIG_D1 if short(probs) == "labels" else "add:centres-differ:" + short(probs)
-            run.violation(sig, dict(spec=L.jsonable(spec), sector=[2], op="a.add(b), b = a.copy().canonicalise()",
-                                    centres=[int(a.qnidx), int(b.qnidx)], problems=probs))
-        run.count("directed:D1")
-    # D2: adjoint of a creation operator
+    if a is None:
+        return
+    b = a.copy()
+    b.canonicalise()            # centre 0
+    s = a.add(b)
+    probs = check_chain(s, [2])
+    if probs:
+        sig = SIG_D1 if short(probs) == "labels" else "add:centres-differ:" + short(probs)
+        run.violation(sig, dict(spec=L.jsonable(spec), sector=[2], op="a.add(b), b = a.copy().canonicalise()",
+                                centres=[int(a.qnidx), int(b.qnidx)], problems=probs))
+    run.count("directed:D1")
+
+
+def _directed_d2(run, rng):
+    """D2: adjoint of a creation operator"""
+    from renormalizer import Mpo, Op
+    spec, basis, k, model = _directed_model()
     mpo = Mpo(model, Op(r"a^\dagger", ("e", 1), 1.0, qn=[[1]]))
     adj = mpo.conj_trans()
     probs = check_chain(adj, [-1])
@@ -1017,16 +1143,23 @@ def directed(run, rng):
         run.violation(SIG_D2, dict(spec=L.jsonable(spec), op="Mpo(a^dagger_1).conj_trans()", problems=probs,
                                    stored_qntot=L.jsonable(np.asarray(adj.qntot)), expected_qntot=[-1]))
     run.count("directed:D2")
-    # D15: all sites occupied, m_max = 1
+
+
+def _directed_d15(run, rng):
+    """D15: all sites occupied, m_max = 1"""
+    from renormalizer import Mps
+    spec, basis, k, model = _directed_model()
     fails = 0
     first = None
     for i in range(10):
         seed = L.reseed(rng)
         try:
             Mps.random(model, 4, 1, percent=1.0)
-        except FloatingPointError as e:
+        except Exception as e:
+            if not is_dead_end_error(e):
+                raise
             fails += 1
-            first = first or dict(spec=L.jsonable(spec), sector=[4], m_max=1, percent=1.0, numpy_seed=seed, error=f"FloatingPointError: {e}")
+            first = first or dict(spec=L.jsonable(spec), sector=[4], m_max=1, percent=1.0, numpy_seed=seed, error=f"{type(e).__name__}: {e}")
     if fails:
         run.violation(SIG_D15, dict(first, failures_out_of_10=fails))
     run.count("directed:D15")
